@@ -8,6 +8,7 @@
      CParam  one parameter set offered to x/da MsgUpdateParams: accepted?
    Codes: 0 correspondence; 1 FinalizeBlock returned an error or panicked; 2 a transaction did not
    return within the watchdog although/and the model's iteration count is >= 10^7 (hang);
+   3 PrepareProposal returned more than MaxTxBytes;
    101 trigger of the known finding "share-class entry owes more than x/staking released". *)
 From Coq Require Import ZArith List Bool.
 Import ListNotations.
@@ -107,7 +108,16 @@ Definition mon_watch (validated guard : bool) (fee ratio offs quote base : Z) (o
 Definition param_corr (p : Da.params) (sft slash_epoch : Z) (accepted : bool) : bool :=
   Bool.eqb (da_params_ok p sft slash_epoch) accepted.
 
+(* ------------------------------------------------------------------ PrepareProposal *)
+(* observed: sizes of the entries of the metadata section of the response (splitter first) and the
+   total size of the response; the model predicts the section from the budget and the verified
+   items. monitor 3: the response fits MaxTxBytes *)
+Definition proposal_corr (max split : Z) (entries obs_meta : list Z) : bool :=
+  zlist_eqb (metadata_section max split entries) obs_meta.
+Definition mon_proposal (max total : Z) : bool := total <=? max.
+
 Inductive c01_case :=
+| CProposal (max split : Z) (entries obs_meta : list Z) (total : Z)
 | CBlock (b : block_in) (o : block_obs)
 | CPool (fee ratio offs : Z) (accepted : bool)
 | CWatch (fee ratio offs quote base : Z) (o : watch_obs)
@@ -115,6 +125,8 @@ Inductive c01_case :=
 
 Definition c01_check_gen (validated guard : bool) (c : c01_case) : list Z :=
   match c with
+  | CProposal max split entries obs_meta total =>
+      flag 0 (proposal_corr max split entries obs_meta) ++ flag 3 (mon_proposal max total)
   | CBlock b o => flag 0 (block_corr b o) ++ flag 1 (mon_block o) ++ flag 101 (negb (trig_sc_short b))
   | CPool fee ratio offs acc => flag 0 (if validated then pool_corr fee ratio offs acc else acc)
   | CWatch fee ratio offs quote base o =>
